@@ -330,7 +330,7 @@ func TestVerifC45(t *testing.T) {
 		r.Transition(len(s.Choices()) + 1)
 		rp := c45Replay{sc, s.Choices(), bound}
 		fail := func(kind, what string) {
-			r.ViolationMin(kind, len(s.Choices()), fmt.Sprintf("%s %s", sc.key(), kind), what+" [schedule "+s.Trace()+"]", rp)
+			r.ViolationMin(kind, c45Size(s.Choices()), fmt.Sprintf("%s %s", sc.key(), kind), what+" [schedule "+s.Trace()+"]", rp)
 		}
 		if p, stack := s.Failed(); p != nil {
 			fail("panic", fmt.Sprintf("panic: %v\n%s", p, stack))
@@ -456,4 +456,16 @@ func TestVerifC45(t *testing.T) {
 		r.Set("max_preemption_bound", maxBound)
 		r.Set("scenarios", len(scs))
 	}
+}
+
+// c45Size orders counterexamples: fewest non-default choices (deviations, preemptions)
+// first, then the shortest script.
+func c45Size(choices []int) int {
+	n := 0
+	for _, c := range choices {
+		if c != 0 {
+			n++
+		}
+	}
+	return n*1000 + len(choices)
 }
